@@ -15,6 +15,8 @@ func yamlMarshalStream(vs []any) ([]byte, error) {
 	// document rather than "null".
 
 	first := true
+	leadingEmpty := false
+	encoded := false
 	buf := &bytes.Buffer{}
 	enc := yaml.NewEncoder(buf)
 	enc.SetIndent(2)
@@ -28,8 +30,18 @@ func yamlMarshalStream(vs []any) ([]byte, error) {
 				buf.Write([]byte("---\n"))
 			}
 
+			leadingEmpty = leadingEmpty || first2
+
 			continue
 		}
+
+		if leadingEmpty && !encoded {
+			// The encoder puts no separator before the first document it
+			// writes; after a leading empty document there has to be one.
+			buf.Write([]byte("---\n"))
+		}
+
+		encoded = true
 
 		// Encode through a node tree so that the string "<<" can be quoted:
 		// written plain it would read back as a merge key, not as data.
